@@ -34,6 +34,9 @@ CONSTANTS TagNames,     \* names the maintainer may create
           Requests,     \* VERSION strings a behaviour may start with (the input)
           Flags,        \* {"absent", "true", "false"}
           BumpTo,       \* VERSION strings the maintainer may switch to between invocations ({} = never)
+          TreeNames,    \* names the maintainer may (mistakenly) put on a TREE object: a version-named ref that is no commit
+          InitCommits,  \* the repository starts with commits 1..InitCommits: 1 <- 2 (branch main) and 1 <- 3 (branch
+          InitHead,     \*   side), HEAD on main; so tags can sit on commits that are no ancestors of HEAD
           MaxCommits, MaxHist
 
 VARIABLES tags,      \* name -> [c |-> commit, k |-> kind, s |-> name stored in the tag object when the ref was made from another tag's object, else ""]
@@ -52,8 +55,8 @@ NoRun == [flag |-> "none"]
 State == [tags |-> tags, head |-> head, dirty |-> dirty, version |-> version, other |-> "same"]
 
 Init == /\ tags = << >>
-        /\ head = 1
-        /\ ncommits = 1
+        /\ head = InitHead
+        /\ ncommits = InitCommits
         /\ dirty = "clean"
         /\ version \in Requests
         /\ pc = "idle"
@@ -81,18 +84,17 @@ Checkout(c) == /\ Idle /\ c \in 1..ncommits /\ c # head /\ Clean(dirty)
                /\ UNCHANGED <<tags, ncommits, dirty, version, pc, run>>
 
 UserTag(n, k) == /\ Idle /\ n \notin DOMAIN tags
-                 /\ tags' = Extend(tags, n, [c |-> head, k |-> k, s |-> ""])
+                 /\ k = "tree" => n \in TreeNames          \* `git tag n HEAD^{tree}`: c = 0, no commit behind the ref
+                 /\ tags' = Extend(tags, n, [c |-> IF k = "tree" THEN 0 ELSE head, k |-> k, s |-> ""])
                  /\ Log([op |-> "usertag", name |-> n, kind |-> k])
                  /\ UNCHANGED <<head, ncommits, dirty, version, pc, run>>
 
-\* a second ref on the tag OBJECT of an existing annotated tag (`git tag n m`).  Two shapes are generated:
-\* the floating major tag made from a release tag (`git tag v3 v3.0.1`), and a non-version alias made from the
-\* major tag (`git tag latest v3`).  (A release NAME put on the major tag's object is left out on purpose: the
-\* tool reads the name stored in the tag object, not the ref name -- see the report of checks/c20.py.)
+\* a second ref on the tag OBJECT of an existing annotated tag (`git tag n m`): the floating major tag made
+\* from a release tag (`git tag v3 v3.0.1`), and ANY name made from the major tag (`git tag latest v3`,
+\* `git tag v3.0.1 v3; git tag v3.1.0 v3`: version-named refs whose tag object says "v3").
 IsMajorName(x) == \E r \in DOMAIN ReqTable : ReqTable[r].valid /\ ReqTable[r].majorname = x
 Alias(n, m) == /\ Idle /\ n \notin DOMAIN tags /\ m \in DOMAIN tags /\ tags[m].k = "annotated"
-               /\ \/ IsMajorName(n) /\ NameTable[m].full
-                  \/ IsMajorName(m) /\ ~NameTable[n].parsable
+               /\ IsMajorName(n) \/ IsMajorName(m)
                /\ tags' = Extend(tags, n, [c |-> tags[m].c, k |-> "annotated",
                                             s |-> IF tags[m].s = "" THEN m ELSE tags[m].s])   \* name inside the shared object
                /\ Log([op |-> "alias", name |-> n, src |-> m])
@@ -116,10 +118,9 @@ Zero == [maj |-> 0, min |-> 0, pat |-> 0, pre |-> 0]
 \* tag.go:88-153  largestTagSemver: names with fewer than three dot-separated parts are skipped, every
 \* other name must parse (lenient NewVersion) or the run fails; the largest version of the requested
 \* major, starting from v0.0.0.
-\* tag.go:101-121: for an annotated tag the name is read from the tag OBJECT (tag.Name), not from the ref;
-\* the two differ exactly for refs made from another tag's object (Alias)
-SeenName(n) == IF tags[n].s = "" THEN n ELSE tags[n].s
-Considered == {x \in {SeenName(n) : n \in DOMAIN tags} : NameTable[x].dots3}
+\* tag.go:101-125 (af42c68): the version a tag stands for is the name of the REF, also for annotated tags whose
+\* object carries another name (refs made with Alias)
+Considered == {n \in DOMAIN tags : NameTable[n].dots3}
 LargestFails == \E n \in Considered : ~NameTable[n].parsable
 Largest(major) ==
   LET S == {n \in Considered : NameTable[n].maj = major}
@@ -172,7 +173,7 @@ RunExit ==
 
 Next == \/ Commit
         \/ \E c \in 1..MaxCommits : Checkout(c)
-        \/ \E n \in TagNames, k \in Kinds : UserTag(n, k)
+        \/ \E n \in TagNames, k \in Kinds \cup {"tree"} : UserTag(n, k)
         \/ \E n \in TagNames, m \in TagNames : Alias(n, m)
         \/ \E d \in DirtyKinds : Touch(d)
         \/ \E v \in BumpTo : Bump(v)
@@ -188,7 +189,7 @@ SimNext == \/ /\ Len(hist) % 2 = 1
            \/ /\ Len(hist) % 2 = 0
               /\ \/ Commit
                  \/ \E c \in 1..MaxCommits : Checkout(c)
-                 \/ \E n \in TagNames, k \in Kinds : UserTag(n, k)
+                 \/ \E n \in TagNames, k \in Kinds \cup {"tree"} : UserTag(n, k)
                  \/ \E n \in TagNames, m \in DOMAIN tags : Alias(n, m)
                  \/ \E d \in DirtyKinds : Touch(d)
                  \/ \E v \in BumpTo : Bump(v)
@@ -210,7 +211,7 @@ PExitSignals      == [][Exiting => ExitSignals(run.pre, run.flag, State, run.exi
 PFrame            == [][pc # "idle" => head' = head /\ dirty' = dirty /\ ncommits' = ncommits /\ version' = version]_vars
 
 TypeOK == /\ DOMAIN tags \subseteq DOMAIN NameTable
-          /\ \A n \in DOMAIN tags : tags[n].c \in 1..ncommits /\ tags[n].k \in Kinds
+          /\ \A n \in DOMAIN tags : tags[n].c \in 0..ncommits /\ tags[n].k \in Kinds \cup {"tree"}
           /\ head \in 1..ncommits
           /\ pc \in {"idle", "full", "major", "exit"}
           /\ TagNames \subseteq DOMAIN NameTable
